@@ -429,7 +429,9 @@ def make_coop(pid, cfg, tier, seed, work):
 
 reg("C16", exc_ops={"CoopNext"}, prefixes=["C16.", "C02.inv"], maker=make_coop,
     mc=[("coop", None, None), ("coopnet", None, None), ("coopnet:pq", None, None), ("coopnet:slow", None, None),
-        ("coopnet:slowi", None, None), ("coopnet:top", None, None), ("coopnet:topall", None, None)],
+        ("coopnet:slowi", None, None), ("coopnet:top", None, None), ("coopnet:topall", None, None),
+        ("coopnet:links", None, None), ("coopnet:linksin", None, None), ("coopnet:pagelinks", None, None),
+        ("coopnet:children", None, None), ("coopnet:plf11", None, None)],
     weights={"Clear": 0, "Reopen": 0, "AddPage": 30, "IndexBatchCrawl": 20, "CreateWe": 8},
     profile={"raw": 0.0, "long": 0.3, "nlrus": 9, "extend": 0.3}, n=(260, 1500),
     nontrivial=lambda tr: sum(1 for s in tr["steps"] if s["op"] == "CoopNext") >= 6,
